@@ -676,6 +676,63 @@ run_balanced_after_set_up(vh::Rng& rng, bool thorough, Sink& k)
               std::fprintf(k.orc, "ORACLE-FAIL after set_up: balanced flag %d, per-subset viewgram counts %s, max segment used %d (requested %d, data %d): V=%d flags=%d tofbins=%d n=%d\n",
                            b ? 1 : 0, equal ? "equal" : "unequal", used, req, datamax, V, flags, tofbins, n);
             }
+          // ---- the SAME object used again with data that have another number of segments: a range that was filled in from the
+          //      data follows the new data; a range that was asked for (also when it is asked for with exactly the value in force) stays
+          if (rng.range(0, 1) == 0)
+            {
+              int R2 = rng.range(1, 3);
+              if (R2 == R)
+                R2 = R % 3 + 1;
+              Geo g2;
+              if (make_geo(g2, V, R2, tofbins, flags))
+                {
+                  const int datamax2 = g2.pdi->get_max_segment_num();
+                  shared_ptr<ProjData> data2(new ProjDataInMemory(g2.exam, g2.pdi));
+                  data2->fill(1.F);
+                  const int how = rng.range(0, 2);
+                  int req2 = req;
+                  if (how == 1)
+                    {
+                      req2 = used;
+                      obj.set_max_segment_num_to_process(req2);
+                    }
+                  else if (how == 2)
+                    {
+                      req2 = rng.range(0, std::max(datamax, datamax2));
+                      obj.set_max_segment_num_to_process(req2);
+                    }
+                  obj.set_proj_data_sptr(data2);
+                  obj.set_projector_pair_sptr(g2.pair);
+                  bool ok2 = true;
+                  try
+                    {
+                      shared_ptr<TargetT> image2(g2.image->clone());
+                      if (obj.set_up(image2) != Succeeded::yes)
+                        ok2 = false;
+                    }
+                  catch (...)
+                    {
+                      ok2 = false;
+                    }
+                  put_cfg(k, g2);
+                  std::fprintf(k.ops, "balancedsu %d %d %d %d\n", n, req2, datamax2, use_ss ? 1 : 0);
+                  if (!ok2)
+                    std::fprintf(k.out, "err\n");
+                  else
+                    {
+                      const int used2 = obj.get_max_segment_num_to_process();
+                      std::fprintf(k.out, "%d %d\n", obj.subsets_are_approximately_balanced() ? 1 : 0, used2);
+                      ++k.checks;
+                      if ((req2 == -1 && used2 != datamax2) || (req2 >= 0 && used2 != req2))
+                        {
+                          ++k.fails;
+                          std::fprintf(k.orc, "ORACLE-FAIL object used again with other data (setter history %d): max segment used %d (asked for %d, new data %d, first data %d): V=%d flags=%d tofbins=%d n=%d\n",
+                                       how, used2, req2, datamax2, datamax, V, flags, tofbins, n);
+                        }
+                    }
+                  put_cfg(k, g);
+                }
+            }
         }
     }
   // ---- TrivialDataSymmetriesForBins: no symmetries at all
